@@ -2539,10 +2539,10 @@ def _remove_empty_parents(path: bytes, stop_at: bytes) -> None:
     """Remove empty parent directories up to stop_at."""
     # Never at or above stop_at, however it is spelled: a trailing separator
     # (core.worktree = /srv/site/) must not let the walk pass the root.
-    stop_at = os.path.normpath(stop_at)
+    stop_at = os.path.abspath(stop_at)
     below = stop_at.rstrip(os.sep.encode()) + os.sep.encode()
     parent = os.path.dirname(path)
-    while parent and os.path.normpath(parent).startswith(below):
+    while parent and os.path.abspath(parent).startswith(below):
         try:
             os.rmdir(parent)
             parent = os.path.dirname(parent)
